@@ -216,6 +216,8 @@ pub enum UpAns {
     ItemGateFail,
     ItemReadyFail,
     Pending,
+    /// a cooperative yield: wakes the task right away and answers Pending (not blocked afterwards)
+    PendingWake,
     Err,
     End,
 }
@@ -247,6 +249,7 @@ pub struct UpState {
     /// forced behaviour for epilogues
     pub force: Option<UpForce>,
     pub ready_cost: bool,
+    pub yields_in_a_row: u32,
     /// concurrency limit of the adapter under test (0 = none) and whether it is an ordered one:
     /// the limit oracles are evaluated at the very moment upstream hands out an item
     pub limit: usize,
@@ -407,6 +410,7 @@ impl World {
                 dropped: 0,
                 force: None,
                 ready_cost: true,
+                yields_in_a_row: 0,
                 limit: 0,
                 ordered: false,
                 modes: [Mode::Gate, Mode::Ready],
@@ -1420,13 +1424,17 @@ impl<I: UpItem> Stream for Upstream<I> {
                             let k = w.choose(2, 0b10, false);
                             [UpAns::End, UpAns::Pending][k]
                         } else {
-                            let mut menu: Vec<UpAns> = vec![UpAns::ItemGate, UpAns::ItemReady, UpAns::Pending];
-                            let mut mask: u64 = if w.up.ready_cost { 0b110 } else { 0b100 };
+                            let mut menu: Vec<UpAns> = vec![UpAns::ItemGate, UpAns::ItemReady, UpAns::Pending, UpAns::PendingWake];
+                            let mut mask: u64 = if w.up.ready_cost { 0b1110 } else { 0b1100 };
                             if w.up.is_try {
                                 menu.push(UpAns::Err);
                                 menu.push(UpAns::ItemGateFail);
                                 menu.push(UpAns::ItemReadyFail);
-                                mask |= 0b111000;
+                                mask |= 0b1110000;
+                            }
+                            // a yielding upstream must eventually produce: at most two yields in a row
+                            if w.up.yields_in_a_row >= 2 {
+                                menu.retain(|a| *a != UpAns::PendingWake);
                             }
                             let k = w.choose(menu.len(), mask, false);
                             menu[k]
@@ -1434,12 +1442,19 @@ impl<I: UpItem> Stream for Upstream<I> {
                     }
                 };
                 w.up.fed = false;
+                w.up.yields_in_a_row = if ans == UpAns::PendingWake { w.up.yields_in_a_row + 1 } else { 0 };
                 w.up.blocked = ans == UpAns::Pending;
                 w.up.last_answer_in_call = Some(ans);
                 w.logf(|| format!("    upstream polled -> {:?}", ans));
                 ans
             });
             match ans {
+                UpAns::PendingWake => {
+                    w(|w| w.env_wake_depth += 1);
+                    cx.waker().wake_by_ref();
+                    w(|w| w.env_wake_depth -= 1);
+                    Poll::Pending
+                }
                 UpAns::Pending => {
                     let new = cx.waker().clone();
                     let old = w(|w| w.up.waker.replace(new));
